@@ -206,6 +206,16 @@ def history(seed_=None):
             ft.mdft.idft2(g, 2.0, (3, 4), (0.5, 1.0))
             ft.mdft.dft2(g, 2.0, (3, 4), (0.5, 1.0))
             ft.czt.iczt2(g, 2.0, (3, 4), (0.5, 1.0))
+        if rng.random() < 0.6:
+            # neighbours of the target: transforms that share ONE axis's parameters (length, Q, output size, shift) with it and
+            # differ on the other axis -- what a per-axis cache would confuse
+            for (mm, nn, MM, NN, QQ, ss) in ((5, 4, 5, 6, 2.0, (0.5, 1.0)), (3, 7, 5, 6, 2.0, (0.5, 1.0)), (3, 4, 8, 6, 2.0, (0.5, 1.0)),
+                                             (3, 4, 5, 9, 2.0, (0.5, 1.0)), (3, 4, 5, 6, (2.0, 3.0), (0.5, 1.0)), (3, 4, 5, 6, (1.5, 2.0), (0.5, 1.0)),
+                                             (3, 4, 5, 6, 2.0, (0.5, 0.0)), (3, 4, 5, 6, 2.0, (0.0, 1.0))):
+                if rng.random() < 0.5:
+                    g = rng.standard_normal((mm, nn)) + 1j * rng.standard_normal((mm, nn))
+                    for fn in (ft.mdft.dft2, ft.mdft.idft2, ft.czt.czt2, ft.czt.iczt2):
+                        fn(g, QQ, (MM, NN), ss)
         for _ in range(int(rng.integers(1, 7))):
             r = rng.random()
             if r < 0.25:
@@ -224,6 +234,8 @@ def history(seed_=None):
             got = getattr(ft.mdft, name)(*args)
             fresh = getattr(ft.MatrixDFTExecutor(), name)(*args)
             check('mdft-%s-value' % name, bool(np.array_equal(got, fresh)))
+            ref = _ref_dft(np, args[0], (args[1], args[1]), args[2], args[3], -1 if name == 'dft2' else 1)
+            check('mdft-%s-modulus-is-the-textbook-transform-after-the-history' % name, bool(np.allclose(abs(got), abs(ref), atol=1e-4 if prec == 32 else 1e-9)))
             check('mdft-%s-dtype' % name, got.dtype == fresh.dtype)
         for name in ('czt2', 'iczt2'):
             got = getattr(ft.czt, name)(*args)
@@ -234,3 +246,4 @@ def history(seed_=None):
         conf.precision = old
         ft.mdft.clear()
         ft.czt.clear()
+
